@@ -341,6 +341,113 @@ fn check_config(idx: u64, cfg: &Config, words: &[(Vec<char>, Vec<String>)], acc:
     }
 }
 
+// ---------------------------------------------------------------- operation histories on ONE hyphenator
+
+/// The operation alphabet of the history family. Word "aba": P1 cuts a-ba, P2 cuts ab-a, E1 lists ab-a,
+/// E2 lists a-ba, E3 lists the neighbour word "ab" without a hyphen (P1 would cut a-b).
+const HIST_OPS: [&str; 9] = [
+    "load_patterns(\"a1b\")",
+    "load_patterns(\"b1a\")",
+    "insert_exception(\"ab-a\")",
+    "insert_exception(\"a-ba\")",
+    "insert_exceptions(\"ab-a ab\")",
+    "query(\"aba\")",
+    "query(\"Aba\")",
+    "query(\"ABA\")",
+    "query(\"ab\")",
+];
+fn hist_query_word(op: u64) -> Option<&'static str> {
+    match op {
+        5 => Some("aba"),
+        6 => Some("Aba"),
+        7 => Some("ABA"),
+        8 => Some("ab"),
+        _ => None,
+    }
+}
+/// Run one history on one real hyphenator; the reference state is (patterns loaded so far, exception
+/// entries in order of declaration) and the model is rebuilt from scratch at the judged query. Only
+/// the LAST operation is judged (every prefix is a history of its own); earlier queries are executed
+/// because they are what a cache would remember.
+fn check_history(idx: u64, ops: &[u64], acc: &mut Acc) {
+    let Some(&last) = ops.last() else { return };
+    let Some(word) = hist_query_word(last) else { return };
+    acc.eval();
+    let case = || json!({"kind": "history", "ops": ops, "text": ops.iter().map(|o| HIST_OPS[*o as usize]).collect::<Vec<_>>()});
+    let lc = AsciiLowerCaser::default();
+    let mut patterns: Vec<&str> = vec![];
+    let mut exceptions: Vec<&str> = vec![];
+    let r = catch(|| {
+        let mut h = Hyphenator::default();
+        let mut out = vec![];
+        for op in ops {
+            match op {
+                0 => h.load_patterns("a1b"),
+                1 => h.load_patterns("b1a"),
+                2 => h.insert_exception("ab-a"),
+                3 => h.insert_exception("a-ba"),
+                4 => h.insert_exceptions("ab-a ab"),
+                q => out = h.calculate_indices(&lc, hist_query_word(*q).unwrap()).collect::<Vec<usize>>(),
+            }
+        }
+        out
+    });
+    for op in ops {
+        match op {
+            // (loading the identical pattern again stores the same digits again: idempotent)
+            0 if !patterns.contains(&"a1b") => patterns.push("a1b"),
+            1 if !patterns.contains(&"b1a") => patterns.push("b1a"),
+            2 => exceptions.push("ab-a"),
+            3 => exceptions.push("a-ba"),
+            4 => {
+                exceptions.push("ab-a");
+                exceptions.push("ab");
+            }
+            _ => {}
+        }
+    }
+    let mut model = Liang::new();
+    for p in &patterns {
+        let _ = model.add_pattern(p, &ascii_lc);
+    }
+    for e in &exceptions {
+        model.add_exception(e, &ascii_lc);
+    }
+    let want = model.positions(&word.chars().collect::<Vec<_>>(), &ascii_lc, 1, 1).unwrap();
+    if !patterns.is_empty() || !exceptions.is_empty() {
+        acc.nontrivial();
+    }
+    // collision counters: was the same spelling asked before, with a state change for its word since?
+    let wl = word.to_ascii_lowercase();
+    if let Some(first) = ops[..ops.len() - 1].iter().position(|o| *o == last) {
+        let between = &ops[first + 1..ops.len() - 1];
+        if between.iter().any(|o| *o <= 1) {
+            acc.count("query_repeated_after_load_patterns");
+        }
+        let touches = |o: &u64| match o {
+            2 | 3 => wl == "aba",
+            4 => true,
+            _ => false,
+        };
+        if between.iter().any(touches) {
+            acc.count("query_repeated_after_insert_exception_for_its_word");
+            if word != wl {
+                acc.count("query_repeated_after_insert_exception_for_its_word_in_other_case");
+            }
+        }
+    }
+    acc.class(&format!("history: {} -> {:?}", word, want));
+    match r {
+        Err(p) => acc.fail(idx, case(), format!("{want:?}"), p.describe(), "an operation of the history panicked"),
+        Ok(got) => {
+            let got = as_set(got, acc);
+            if got != want {
+                acc.fail(idx, case(), format!("{want:?}"), format!("{got:?}"), format!("the last query of the history differs from the model rebuilt from scratch (patterns {patterns:?}, exceptions in order {exceptions:?})"));
+            }
+        }
+    }
+}
+
 // ---------------------------------------------------------------- enumerators
 
 /// All patterns with 1..=maxlen letters over {a,b}, optional "." at either end, one digit choice from
@@ -584,6 +691,7 @@ const NONE: Option<u8> = None;
 fn main() {
     let mut ctx = Ctx::new("C13", Level::Exploration);
     ctx.assume("lower-case maps explored: hyphenate::AsciiLowerCaser on ASCII letters, and one harness LowerCaser that adds the letters é/É (2 bytes), ḁ/Ḁ (3 bytes), 𝐚/𝐀 (4 bytes) and, mapped to themselves, the non-alphabetic letters ', U+2019, U+200D, @ and U+1F600 (a letter is whatever the map accepts); patterns and exception entries are written in lower case (an upper-case letter in an entry is finding D11c)");
+    ctx.assume("in operation histories, loading the identical pattern text a second time is taken as idempotent (TeX §963 reports \"Duplicate pattern\" and stores the same digits again)");
     ctx.assume("pattern sets with two patterns on the same (anchored) letter string are outside the domain: TeX §963 rejects the second as \"Duplicate pattern\" (skipped and counted)");
     ctx.assume("patterns are well formed in the sense of TeX §962: letters, at most one digit per slot, \".\" only at the ends, no digit outside the dots; words contain letters only (a string with a non-letter is never a word, TeX §897)");
     ctx.assume("an exception entry with a leading or trailing hyphen is legal and the hyphen has no effect (TeX §938 records position 0 / n, §923 clears them)");
@@ -606,7 +714,10 @@ fn main() {
         let case = if case["case"].is_object() { case["case"].clone() } else { case };
         let word = case["word"].as_str().unwrap_or("").to_string();
         let wl: Vec<char> = word.chars().filter_map(lc_all).collect();
-        if case["kind"] == "plain" {
+        if case["kind"] == "history" {
+            let ops: Vec<u64> = case["ops"].as_array().map(|a| a.iter().filter_map(|x| x.as_u64()).collect()).unwrap_or_default();
+            check_history(0, &ops, &mut acc);
+        } else if case["kind"] == "plain" {
             check_plain(0, &plain, &plain_patterns, &plain_exceptions, &[(wl, vec![word])], &mut acc);
         } else {
             let cfg = Config { patterns: strs(&case["patterns"]), exceptions: strs(&case["exceptions"]), exceptions_first: case["exceptions_first"].as_bool().unwrap_or(false), mixed: case["mixed_alphabet"].as_bool().unwrap_or(false), list_api: case["list_api"].as_array().map(|a| (a[0].as_str().unwrap_or("").to_string(), a[1].as_str().unwrap_or("").to_string(), a[2].as_str().unwrap_or("").to_string())) };
@@ -1105,6 +1216,22 @@ fn main() {
 
     ctx.require("pattern_with_non_alphabetic_letter", "a pattern with a letter that Unicode does not class as alphabetic (apostrophe, U+2019, U+200D, @)");
     ctx.require("exception_with_non_alphabetic_letter", "an exception entry with such a letter, also directly next to a hyphen");
+    // F13: state carried between operations: every short history on one hyphenator
+    {
+        let k = HIST_OPS.len() as u64;
+        let depth = ctx.pick(5u32, 6u32);
+        let n = vcore::strings_upto(k, depth);
+        ctx.family("hyphenator-histories", &format!("every sequence of at most {depth} operations over {{{}}} on ONE Hyphenator; a sequence that ends in a query is judged against the model rebuilt from scratch from (patterns loaded so far, exception entries in order of declaration)", HIST_OPS.join(", ")), n, |idx, acc| {
+            let ops = vcore::nth_string(k, idx);
+            check_history(idx, &ops, acc);
+            if idx % 9973 == 77 {
+                acc.sample(idx, || json!({"history": ops.iter().map(|o| HIST_OPS[*o as usize]).collect::<Vec<_>>()}));
+            }
+        });
+    }
+
+    ctx.require("query_repeated_after_insert_exception_for_its_word_in_other_case", "a spelling with upper-case letters is asked, then an exception for its lower-cased word is inserted, then the same spelling is asked again");
+    ctx.require("query_repeated_after_load_patterns", "a word is asked, then patterns are loaded, then the same word is asked again");
     ctx.require("exception_redeclared", "the same word inserted twice with different positions (every ordered pair of entries, so both orders): the later one must win");
     ctx.require("exception_longer_than_every_pattern_plus_1", "an exception word with more letters than the longest loaded pattern plus one");
     ctx.require("exception_list_separated_by_space_or_tab", "an exception list whose entries are separated by blanks or tabs only goes through insert_exceptions");
